@@ -10,7 +10,7 @@ import json, os, sys
 
 # operator -> (number of direct slots, binders per child)
 SIG_T = {
-    "f": (2, []), "p": (2, []), "f3": (3, []), "f4": (4, []), "v": (1, []), "c": (0, []), "d": (0, []),
+    "f": (2, []), "p": (2, []), "f3": (3, []), "p3": (3, []), "f4": (4, []), "v": (1, []), "c": (0, []), "d": (0, []),
     "g": (0, [0]), "h": (0, [0, 0]), "lam": (0, [1]), "let": (0, [1, 0]),
     "k": (0, [0, 1]), "sum": (0, [0, 2]),
 }
@@ -179,7 +179,21 @@ U6 = universe("U6", 4, [
          "(g (g %s))" % XB, "(h (g %s) c)" % XB, "(lam 1 (h %s (v 1)))" % XB],
    note="analysis data that change more than once per rebuild (modify queue, upward propagation)")
 
-ALL = {"U1": U1, "U2": U2, "U3": U3, "U4": U4, "U5": U5, "U6": U6}
+# U7 "transport of groups": a class whose symmetry group needs TWO generators (asserted by explicit unions, not derivable
+# from its e-nodes) is merged into a bigger class (parents pre-inserted) as the deprecated side: move_to has to carry over
+# every generator.  Three equations are needed, so this small universe runs with MaxEqs 3 in the quick tier as well.
+P3 = lambda a, b, c: "(p3 %d %d %d)" % (a, b, c)
+U7 = universe("U7", 4, [
+    (F3(1, 2, 3), F3(2, 1, 3)),
+    (F3(1, 2, 3), F3(2, 3, 1)),
+    (F3(1, 2, 3), P3(1, 2, 3)),
+    (P3(1, 2, 3), P3(1, 3, 2)),
+    (F3(1, 2, 3), P3(3, 1, 2)),
+    (F3(1, 2, 3), F3(1, 3, 2)),
+], base=["(g (p3 1 2 3))", "(h (p3 1 2 3) (v 1))"],
+   note="symmetry groups with two generators transported by move_to")
+
+ALL = {"U7": U7, "U1": U1, "U2": U2, "U3": U3, "U4": U4, "U5": U5, "U6": U6}
 
 if __name__ == "__main__":
     out = os.path.dirname(os.path.abspath(__file__))
